@@ -69,7 +69,7 @@ def twin_cell(info, x, y):
     xmin, xmax, ymin, ymax, cs, ls, dX, dY = info
     if x < xmin or x > xmax or y < ymin or y > ymax:
         return None
-    return ((x - xmin) / dX, (y - ymin) / dY)
+    return (min((x - xmin) / dX, cs), min((y - ymin) / dY, ls))
 
 
 def case_bbox(case):
@@ -301,6 +301,7 @@ class P(Prop):
         (M, "TV.C08.cells_complete", "a point P of segment [c1,c2] in cell (i,j) — i <= Px < i+1, or i = csize-1 and i <= Px <= csize (last column closed on the upper border), same for j — implies (i,j) in __cellsCrossSegment(c1,c2), segments lying on the upper border included"),
         (M, "TV.C08.constructor_returns", "SpatialIndex(collection,res,margin) does not raise for a non-empty collection, margin >= 0 (0 included: vertices on the upper border), default or positive cell size, any bounding box (flat, single point, shorter than a cell)"),
         (M, "TV.C08.collection_create_index", "TrackCollection.createSpatialIndex(resolution, verbose) is SpatialIndex(collection, resolution, margin) with margin = 1 (verbose=True) or 0 (verbose=False): the flag lands in the constructor's margin parameter; both are >= 0, the call returns and every other theorem applies"),
+        (M, "TV.C08.getCell_min_is_identity", "on every index on which nothing raises, __getCell as executed (idx = min((x-xmin)/dX, csize), idy likewise) returns the affine fractional indices: the min only acts on floating-point rounding"),
         (M, "TV.C08.extent_point_cell", "on a built index every point of the closed extent has a cell (min(floor idx, csize-1), min(floor idy, lsize-1)) inside the grid whose closed square contains it; only the last column/row is closed on the upper side"),
         (M, "TV.C08.index_complete", "after SpatialIndex(collection,res,margin>=0), every point of every segment of feature k is inside the extent and the cell containing it lists k (upper-border vertices included)"),
         (M, "TV.C08.point_query_complete", "request(q) for EVERY q of the closed extent does not raise and returns every feature having a segment point in the cell containing q"),
@@ -320,13 +321,13 @@ class P(Prop):
     ]
     partial = []
     open_statements = [
-        "theorems are over an ordered field with an exact floor: IEEE rounding in (x-xmin)/dX and in the straddle products is outside them (sampled by the flt stream with a 1e-7-cell guard); in particular a vertex exactly on the upper border whose computed index exceeds csize by an ulp is clamped into the last column, but a segment lying wholly on that border is then tested at abscissa csize(1+ulp), outside the closed last cell",
+        "theorems are over an ordered field with an exact floor: IEEE rounding in (x-xmin)/dX and in the straddle products is outside them (sampled by the flt stream with a 1e-7-cell guard); the one rounding situation met — the index of x = xmax exceeding csize by an ulp, so that a segment lying on the border was registered nowhere — is removed by the cap min(index, csize) of __getCell (identity in exact arithmetic: getCell_min_is_identity) and generated on purpose by the float stream",
         "the unit = -1 incremental searches of neighborhood and the given-unit segment/track neighbourhoods are modelled and compared with the implementation, no theorem is stated about them (the property does not mention them)",
         "later addFeature calls with a vertex OUTSIDE the extent are modelled and compared (the `continue` that keeps a stale coord1 and so registers a chord instead of the two legs), no theorem is stated about them: late_feature_complete is about additions inside the extent",
     ]
     modelled = ("TrackCollection.createSpatialIndex (its verbose flag becomes the constructor's margin) and Network.createSpatialIndex as front ends, Network.addEdge on an indexed network (= addFeature with the running edge number); "
                 "SpatialIndex.__init__ (extent from bbox + margin, explicit and default resolution, one column / row and a non-zero cell side on a degenerate axis), __getCell, "
-                "__cellsCrossSegment (index box clamped to the last column / row), __addSegment, addFeature, request (cell/point/segment/track; the point form with the clamped cell), __neighboringcells, "
+                "__cellsCrossSegment (index box clamped to the last column / row), __getCell with its cap min(index, size), __addSegment, addFeature, request (cell/point/segment/track; the point form with the clamped cell), __neighboringcells, "
                 "neighborhood (cell/point/segment/track; unit >= 0 and the incremental unit = -1 search), "
                 "groundDistanceToUnits, __addCellValuesInTAB of core/spatial_index.py; cartesienne, __eval, "
                 "isSegmentIntersects of util/geometry.py; TrackCollection/Network bbox as min/max of the vertices")
@@ -344,7 +345,8 @@ class P(Prop):
             "(points, segments, tracks, cells, neighbourhoods in units and from ground distances 0..grid size); sessions on one index object: 22 % of the cases add 1-2 features after construction "
             "(addFeature, or Network.addEdge on a network indexed by Network.createSpatialIndex), most of those ask every query both before and after the additions, 20 % ask some query twice; "
             "15 % of the indexes are made by TrackCollection.createSpatialIndex / Network.createSpatialIndex, 10 % of the sessions give query points as GeoCoords; "
-            "plus a float stream with random coordinates (margin 0 included, a quarter of the query points are feature vertices). non-trivial = the index is built and at "
+            "plus a float stream with random coordinates (margin 0 in 2 cases of 7, half of those with a feature lying on the upper border of the extent and a cell size chosen so that the border index "
+            "A / (A / n) rounds above n; a quarter of the query points are feature vertices). non-trivial = the index is built and at "
             "least one feature segment and one query are present")
 
     # ------------------------------------------------------------------ setup
@@ -710,6 +712,19 @@ class P(Prop):
                 for (i, j) in seg_cells_mode(g(a), g(b), exact, cs, ls):
                     if 0 <= i < cs and 0 <= j < ls:
                         expected.setdefault((i, j), set()).add(k)
+        if not exact:
+            # feature segments lying ON the upper border of the extent (with margin 0 xmax / ymax are vertex coordinates): a
+            # point whose abscissa IS xmax belongs to the last column whatever rounding does to its computed index
+            # (the exact mode gets this from seg_cells_floor). Rows / columns are taken with the guard.
+            for k, f in feats:
+                for a, b in segments(f):
+                    ga, gb = g(a), g(b)
+                    for ax_, lim, n_, m_ in ((0, xmax, cs, ls), (1, ymax, ls, cs)):
+                        if val(a[ax_]) == lim and val(b[ax_]) == lim:
+                            lo, hi = min(ga[1 - ax_], gb[1 - ax_]), max(ga[1 - ax_], gb[1 - ax_])
+                            for t in range(max(0, math.floor(lo)), min(m_ - 1, math.floor(hi)) + 1):
+                                if max(lo, t + EPS) <= min(hi, t + 1 - EPS):
+                                    expected.setdefault((n_ - 1, t) if ax_ == 0 else (t, n_ - 1), set()).add(k)
         for (i, j), s in sorted(expected.items()):
             miss = s - grid.get((i, j), set())
             if miss:
@@ -734,10 +749,13 @@ class P(Prop):
                 c = g(q[1:3])
                 if isr:
                     return ("query-raised", n, "request(point %s) raised %s for a point inside the extent" % (q[1:3], r["err"]))
-                if near_border(c[0]) or near_border(c[1]):
+                # a point whose abscissa IS xmax is in the last column whatever its computed index rounds to
+                bx, by_ = val(q[1]) == xmax, val(q[2]) == ymax
+                if (near_border(c[0]) and not bx) or (near_border(c[1]) and not by_):
                     continue
                 # the cell containing the point: the last column / row owns the upper border of the extent
-                i, j = min(math.floor(c[0]), cs - 1), min(math.floor(c[1]), ls - 1)
+                i = cs - 1 if bx else min(math.floor(c[0]), cs - 1)
+                j = ls - 1 if by_ else min(math.floor(c[1]), ls - 1)
                 miss = expected.get((i, j), set()) - set(r)
                 if miss:
                     return ("omission", n, "request(point %s) omits feature %d which has a segment through the cell (%d,%d) containing the point" % (q[1:3], min(miss), i, j))
@@ -964,7 +982,8 @@ class P(Prop):
         rnd = lambda: round(rng.uniform(0, scale), rng.choice([1, 2, 3]))
         nf = rng.randrange(1, 4)
         feats = [[[rnd(), rnd()] for _ in range(rng.randrange(2, 5))] for _ in range(nf)]
-        margin = rng.choice(["1/20", "1/20", "1/2", "1/10", "0.3", "0"])
+        margin = rng.choice(["1/20", "1/20", "1/2", "1/10", "0.3", "0", "0"])
+        border_axis = None
         degen = rng.random()
         if degen < 0.06:
             # all vertices on one vertical / horizontal line, or (rarely) at one point
@@ -975,6 +994,17 @@ class P(Prop):
                         p[0] = p0[0]
                     if degen >= 0.025:
                         p[1] = p0[1]
+        if margin == "0" and rng.random() < 0.5:
+            # margin 0: a feature lying on the upper border of the extent (= of the bounding box): a street along the
+            # eastern or northern edge of the data set
+            allp = [p for f in feats for p in f]
+            xs, ys = [p[0] for p in allp], [p[1] for p in allp]
+            if rng.random() < 0.5:
+                feats.append([[max(xs), rng.choice(ys)], [max(xs), rng.choice(ys)]] + ([[max(xs), rnd()]] if rng.random() < 0.3 else []))
+                border_axis = 0
+            else:
+                feats.append([[rng.choice(xs), max(ys)], [rng.choice(xs), max(ys)]] + ([[rnd(), max(ys)]] if rng.random() < 0.3 else []))
+                border_axis = 1
         bb = case_bbox({"feats": feats})
         ax, ay = float(bb[1] - bb[0]) * 1.1, float(bb[3] - bb[2]) * 1.1
         base = min(ax, ay) if min(ax, ay) > 0 else (max(ax, ay) or 1.0)
@@ -994,6 +1024,22 @@ class P(Prop):
         else:
             # a divisor < 1 gives a cell larger than the extent on that axis: one column / row
             res = [round((ax or base) / rng.choice([0.6, 1.5, 3, 7, 12, 30]), 3), round((ay or base) / rng.choice([0.6, 1.5, 3, 7, 12, 30]), 3)]
+        if res is not None and border_axis is not None and rng.random() < 0.7:
+            # a float situation: the fractional index of the border, A / (A / n), exceeds n by a rounding error for about 3 %
+            # of the (extent, cell size) pairs: look for such a cell size on the axis that carries the border feature
+            lo_, hi_ = (bb[0], bb[1]) if border_axis == 0 else (bb[2], bb[3])
+            A = float(hi_) - float(lo_)
+            for _ in range(40):
+                if A <= 0:
+                    break
+                rr = round(A / rng.choice([1.5, 3, 7, 12, 30]) * rng.uniform(0.8, 1.2), 3)
+                if rr <= 0:
+                    continue
+                n = max(1, int(A / rr))
+                if A / (A / n) > n:
+                    res = list(res)
+                    res[border_axis] = rr
+                    break
         if res is not None and (res[0] <= 0 or res[1] <= 0):
             res = None
         case = {"kind": "float", "net": rng.random() < 0.2, "feats": feats, "res": res, "margin": margin, "late": [], "queries": []}
